@@ -61,6 +61,8 @@ def cases(tier, seed):
         for ga, gb in itertools.combinations_with_replacement(G3, 2):
             yield {"groups": [ga, gb], "configs": "small", "seed": seed, "tier": tier, "near": 2}
     else:
+        for ga, gb in itertools.combinations_with_replacement(G2 + G3[::2], 2):
+            yield {"groups": [ga, gb], "configs": "small3", "seed": seed, "tier": tier, "methods": True}
         for ga, gb in itertools.combinations_with_replacement(G23, 2):
             yield {"groups": [ga, gb], "configs": "small3", "seed": seed, "tier": tier, "near": 2}
         for ga, gb in itertools.combinations_with_replacement(G23, 2):
